@@ -2,6 +2,8 @@
 
 package neofsecdsa
 
+import "crypto/ecdsa"
+
 // Hooks modelling public key decoding and signature verification of the three
 // ECDSA schemes as verdicts (elliptic-curve arithmetic is outside the encoder's
 // reach). The real methods are renamed to <name>__real.
@@ -10,6 +12,8 @@ var (
 	// VerifHookDecodeAny / VerifHookVerifyAny serve all three key types; scheme is 0 (SHA512), 1 (RFC6979), 2 (WalletConnect).
 	VerifHookDecodeAny func(scheme int, data []byte) error
 	VerifHookVerifyAny func(scheme int, data, signature []byte) bool
+	// VerifHookVerifyKey additionally receives the key the verification runs with.
+	VerifHookVerifyKey func(scheme int, pub ecdsa.PublicKey, data, signature []byte) bool
 )
 
 func (x *PublicKey) Decode(data []byte) error {
@@ -23,6 +27,9 @@ func (x *PublicKey) Decode(data []byte) error {
 }
 
 func (x PublicKey) Verify(data, signature []byte) bool {
+	if h := VerifHookVerifyKey; h != nil {
+		return h(0, ecdsa.PublicKey(x), data, signature)
+	}
 	if h := VerifHookVerifyAny; h != nil {
 		return h(0, data, signature)
 	}
@@ -37,6 +44,9 @@ func (x *PublicKeyRFC6979) Decode(data []byte) error {
 }
 
 func (x PublicKeyRFC6979) Verify(data, signature []byte) bool {
+	if h := VerifHookVerifyKey; h != nil {
+		return h(1, ecdsa.PublicKey(x), data, signature)
+	}
 	if h := VerifHookVerifyAny; h != nil {
 		return h(1, data, signature)
 	}
@@ -51,6 +61,9 @@ func (x *PublicKeyWalletConnect) Decode(data []byte) error {
 }
 
 func (x PublicKeyWalletConnect) Verify(data, signature []byte) bool {
+	if h := VerifHookVerifyKey; h != nil {
+		return h(2, ecdsa.PublicKey(x), data, signature)
+	}
 	if h := VerifHookVerifyAny; h != nil {
 		return h(2, data, signature)
 	}
